@@ -3,13 +3,14 @@
 (diff applies, demonstration fails with it and passes without, the unedited suite still gives 204 passed), run the
 given quick checks against it, store it as /verif/seeded/<Cnn>/ and remove the worktree."""
 import sys, os, subprocess, json, shutil, re
-prop = sys.argv[1]
+seed = sys.argv[1]
+prop = seed[:3]
 checks = sys.argv[2:] or [prop]
-wt = f'/tmp/wt/{prop}'
+wt = f'/tmp/wt/{seed}'
 env = dict(os.environ, OMP_NUM_THREADS='1', MKL_NUM_THREADS='1')
 diff = subprocess.run(['git', '-C', wt, 'diff', '--', 'lazy_dataset'], capture_output=True, text=True).stdout
 if not diff.strip():
-    sys.exit(f'{prop}: no source change in {wt}')
+    sys.exit(f'{seed}: no source change in {wt}')
 def run(cmd, **kw):
     return subprocess.run(cmd, capture_output=True, text=True, **kw)
 demo = os.path.join(wt, 'demo.py')
@@ -19,8 +20,8 @@ print(f'demo: original rc={a}, changed rc={b.returncode}: {b.stdout.strip()[-300
 env2 = {k: v for k, v in os.environ.items() if k not in ('OMP_NUM_THREADS', 'MKL_NUM_THREADS')}
 # the demonstration is not part of the change: keep it out of pytest's doctest-module collection
 os.makedirs('/tmp/wt/_aside', exist_ok=True)
-shutil.move(demo, f'/tmp/wt/_aside/{prop}_demo.py')
-demo = f'/tmp/wt/_aside/{prop}_demo.py'
+shutil.move(demo, f'/tmp/wt/_aside/{seed}_demo.py')
+demo = f'/tmp/wt/_aside/{seed}_demo.py'
 t = run(['/venv/bin/python', '-m', 'pytest', '-q', '-p', 'no:cacheprovider', '--timeout=900', '--continue-on-collection-errors'], cwd=wt, env=env2, timeout=1800)
 tail = t.stdout.strip().split('\n')[-1]
 print('suite:', tail)
@@ -37,7 +38,7 @@ for c in checks:
         if m and os.path.exists(m.group(1)):
             results[c]['summary'] = json.load(open(m.group(1))).get('summary', '')[:400]
 ok = a == 0 and b.returncode != 0 and suite_ok
-dst = f'/verif/seeded/{prop}'
+dst = f'/verif/seeded/{seed}'
 os.makedirs(dst, exist_ok=True)
 # the diff is stored relative to the repository root (apply with: git -C /repo apply seeded/<id>/patch.diff)
 open(os.path.join(dst, 'patch.diff'), 'w').write(diff)
